@@ -6,7 +6,7 @@ import ast
 
 import z3
 
-from .values import tid
+from .values import tid, SetV
 
 from . import spec
 from .values import (BoundMethod, Builtin, ClassM, ClassV, EnumMember, FuncV,
@@ -16,6 +16,7 @@ from .values import (BoundMethod, Builtin, ClassM, ClassV, EnumMember, FuncV,
                      TupleObj, is_sym, mk, z3bool, z3int, z3str)
 
 _MISSING = None  # set below
+_NOKEY = object()
 
 
 class DateV(object):
@@ -350,6 +351,10 @@ class Library(object):
                 return Builtin('list.extend', lambda I, a, k, o=o:
                                (I.heap_write(o, 'extend'),
                                 o.extend(I.iterate(a[0])))[1])
+        if isinstance(o, SetV):
+            if name == 'add':
+                return Builtin('set.add', lambda I, a, k, o=o:
+                               self._set_add(I, o, a[0]))
         if isinstance(o, dict):
             if name == 'get':
                 return Builtin('dict.get', lambda I, a, k, o=o: self._dict_get(o, a))
@@ -400,11 +405,34 @@ class Library(object):
             d[k] = a[1] if len(a) > 1 else None
         return d[k]
 
+    def dict_find(self, d, k):
+        """the key object of d that equals k on this path (deciding symbolic
+        equalities by branching), or _NOKEY"""
+        if not is_sym(k) and not any(is_sym(x) for x in d):
+            try:
+                return k if k in d else _NOKEY
+            except TypeError:
+                raise OutsideSubset('unhashable dict key %r' % (k,))
+        for key in list(d.keys()):
+            r = self.equals(k, key)
+            if r is True:
+                return key
+            if r is False:
+                continue
+            if self.I.ctx.branch(r.t, 'dict-key-equal'):
+                return key
+        return _NOKEY
+
+    def dict_store(self, I, d, k, v):
+        key = self.dict_find(d, k)
+        I.heap_write(d, 'item')
+        d[k if key is _NOKEY else key] = v
+
     def _dict_get(self, d, a):
-        k = a[0]
-        if is_sym(k):
-            raise OutsideSubset('dict.get symbolic key')
-        return d.get(k, a[1] if len(a) > 1 else None)
+        key = self.dict_find(d, a[0])
+        if key is _NOKEY:
+            return a[1] if len(a) > 1 else None
+        return d[key]
 
     def _symdict_get(self, d, a):
         k = a[0]
@@ -1051,13 +1079,15 @@ class Library(object):
             p, _v = container.entry(x)
             return mk(p)
         if isinstance(container, dict):
-            if is_sym(x):
-                raise OutsideSubset('symbolic key in dict')
+            if is_sym(x) or any(is_sym(y) for y in container):
+                return self.contains(list(container.keys()), x)
             return x in container
         if _is_str(container):
             if isinstance(container, str) and isinstance(x, str):
                 return x in container
             return mk(z3.Contains(z3str(container), z3str(x)))
+        if isinstance(container, SetV):
+            container = container.items
         if isinstance(container, (list, tuple, frozenset)):
             disj = []
             for y in container:
@@ -1091,10 +1121,10 @@ class Library(object):
                 if k.ty == 'bool' and set(o.keys()) == {True, False}:
                     return o[True] if I.ctx.branch(k.t, 'dict-bool-key') \
                         else o[False]
-                raise OutsideSubset('dict[symbolic]')
-            if k not in o:
+            key = self.dict_find(o, k)
+            if key is _NOKEY:
                 raise PyExc(self.make_exc('KeyError', repr(k)))
-            return o[k]
+            return o[key]
         if isinstance(o, TupleObj):
             o = o.items
         if isinstance(o, (list, tuple)):
@@ -1326,8 +1356,25 @@ class Library(object):
 
     def bi_set(self, I, a, k):
         if not a:
-            return frozenset()
-        return frozenset(I.iterate(a[0]))
+            return SetV()
+        xs = list(I.iterate(a[0]))
+        if all(isinstance(x, (str, int, bool, type(None))) and not is_sym(x)
+               for x in xs):
+            return frozenset(xs)
+        out = SetV()
+        for x in xs:
+            self._set_add(I, out, x)
+        return out
+
+    def _set_add(self, I, o, x):
+        r = self.contains(o, x)
+        if r is True:
+            return None
+        if r is not False and I.ctx.branch(r.t, 'already-in-set'):
+            return None
+        I.heap_write(o, 'add')
+        o.items.append(x)
+        return None
 
     def bi_int(self, I, a, k):
         v = a[0]
